@@ -3,11 +3,13 @@
 # print one verdict line per property, and undo the change.  Never leaves /repo modified.
 set -u
 PATCH=$1; shift
-cd /repo || exit 2
-if [ -n "$(git status --porcelain)" ]; then echo "refusing: /repo is not clean"; exit 2; fi
+R=${SEED_REPO:-/repo}
+export VERIF_REPO=$R
+cd $R || exit 2
+if [ -n "$(git status --porcelain)" ]; then echo "refusing: $R is not clean"; exit 2; fi
 if ! git apply --check "$PATCH" 2>/dev/null; then echo "PATCH-DOES-NOT-APPLY $PATCH"; exit 3; fi
 git apply "$PATCH"
-trap 'git -C /repo checkout -- . >/dev/null 2>&1; git -C /repo clean -fdq gameboy >/dev/null 2>&1' EXIT
+trap 'git -C $R checkout -- . >/dev/null 2>&1; git -C $R clean -fdq gameboy >/dev/null 2>&1' EXIT
 for P in "$@"; do
   cp /verif/evidence/$P.json /tmp/evidence_backup_$P.json 2>/dev/null
   out=$(cd /verif && timeout 1500 ./check $P --tier quick 2>&1); rc=$?
